@@ -28,3 +28,4 @@ def run(ck):
     status.r19_13_shortcut_needs_plain_destination(ck, P, 'C10-R14')   # accessor equivalence: a raw shortcut bypasses read_func / write_func
     codec.r15_alphaless_fetchers_force_alpha(ck, P, 'C10-R15')
     codec.r16_scanline_readers_are_memoryless(ck, P)
+    codec.r17_converted_pixels_get_the_alpha_mask(ck, P)
